@@ -450,7 +450,8 @@ def _write_evidence(prop, tier, verif_seed, total, wall, workers, nviol, known_p
         "faults_fired": dict(sorted(total["fired"].items())),
         "probes": dict(sorted(total["probes"].items())),
         "probes_at_zero": sorted(p for p in getattr(prop, "PROBES", [])
-                                 if total["probes"].get(p, 0) == 0),
+                                 if total["probes"].get(p, 0) == 0
+                                 and not (tier == "quick" and p in getattr(prop, "THOROUGH_ONLY_PROBES", []))),
         "real_components": getattr(prop, "REAL", []),
         "stub_components": getattr(prop, "STUBS", []),
         "workers": workers,
